@@ -176,11 +176,17 @@ Definition check (s : spec) (user : json) (o : observed) : option string :=
   | _ => match o with OErr => None | _ => Some "a document that holds no batch must be refused with Err" end
   end.
 (* cases whose strings are not plain ASCII are compared through the payload hash on both sides
-   (printing of such strings is not canonical; the hash is over the UTF-8 bytes) *)
+   (printing of such strings is not canonical; the hash is over the UTF-8 bytes); only response
+   lists contain such text *)
 Definition force_hash (s : string) : string :=
   let (tag, r) := split_space s in
   let (id, payload) := split_space r in
-  tag ++ " " ++ id ++ " #" ++ show_Z (hash payload).
+  if String.prefix "Ok " payload then tag ++ " " ++ id ++ " #" ++ show_Z (hash payload)
+  else s.   (* Panic / Hang / Err / VIOLATED: ... are plain text *)
+(* run-length form of long repetitive string literals in the case files (type-checking a string
+   literal costs ~60 us per byte) *)
+Fixpoint rep (u : string) (n : nat) : string :=
+  match n with 0 => "" | S k => u ++ rep u k end.
 Definition line_S (id : Z) (s : spec) (user : json) (o : observed) : string :=
   line "S" id (match check s user o with
                | None => show_observed o
